@@ -439,19 +439,26 @@ class BGP(protocol.Protocol):
             :return:
         """
 
-        # deal with all request in internal message queue
-        # until the queue is empty
-        while not self.handler.inter_mq.empty() and self.msg_recv_stat['Keepalives'] > 0:
-            inter_msg = self.handler.inter_mq.get()
-            LOG.debug('Get %s message %s from internal queue', inter_msg['type'], inter_msg['msg'])
-            if inter_msg['type'] == 'notification':
-                self.send_notification(inter_msg['msg']['error'],
-                                       inter_msg['msg']['sub_error'],
-                                       inter_msg['msg']['data'])
-            elif inter_msg['type'] == 'update':
-                self.send_update(inter_msg['msg'])
-
+        # message statistic: the KEEPALIVE has been received whatever the
+        # internal queue holds
         self.msg_recv_stat['Keepalives'] += 1
+
+        # deal with all request in internal message queue
+        # until the queue is empty (not on the first KEEPALIVE of the session)
+        while not self.handler.inter_mq.empty() and self.msg_recv_stat['Keepalives'] > 1:
+            inter_msg = self.handler.inter_mq.get()
+            try:
+                LOG.debug('Get %s message %s from internal queue', inter_msg['type'], inter_msg['msg'])
+                if inter_msg['type'] == 'notification':
+                    self.send_notification(inter_msg['msg']['error'],
+                                           inter_msg['msg']['sub_error'],
+                                           inter_msg['msg']['data'])
+                elif inter_msg['type'] == 'update':
+                    self.send_update(inter_msg['msg'])
+            except Exception as e:
+                # a request the application got wrong must not make the
+                # KEEPALIVE that triggered the flush disappear
+                LOG.error('Bad message in internal queue: %s', e)
 
         self.handler.keepalive_received(self, timestamp)
 
